@@ -46,7 +46,8 @@ func init() {
 			"requirements are never derived from a Not operand, an Or yields 'no requirement' as soon as one alternative has none, and only Strings below a Symbol become index symbols (R8.3); CouldMatchAny handles every kind collectSymbols can return (R8.4); the call-index path is used only when every alternative of the root call's function is a Symbol over plain names, and both candidate sources end in the same Match call (R8.5); " +
 			"every Symbol name that the fast package rejection actually requires, in all pattern constants of the module, splits into a well-formed (package path, type, name) triple with a non-empty package path — a name the index can never resolve rejects every package (R8.6). " +
 			"It does NOT decide equivalence of the two search strategies on all programs (aliases declared in third packages, wrapper nodes such as ExprStmt/ParenExpr that the matcher looks through)." +
-			" Also decided: the type index's package table, from which every symbol lookup starts, covers the package of every used object (methods and fields of packages that are not imported directly), not only the imports.",
+			" Also decided: the type index's package table, from which every symbol lookup starts, covers the package of every used object (methods and fields of packages that are not imported directly), not only the imports." +
+			" Index.Calls' ascent from the callee's name to the call is cumulative (selector step, then instantiation step), so qualified and explicitly instantiated callees are enumerated.",
 		RuleText:    "table literals evaluated from the AST; type-switch case sets; SSA value origins of recursive calls; a reader for the pattern language applied to every pattern.MustParse constant",
 		Assumptions: []string{"typeindex.Index.Object/Selection/Calls find every direct reference to an object of another package"},
 		Run:         runC08,
